@@ -204,6 +204,37 @@ IDIOMS = [
     ("'.'.join(map(str, %s))", 'join_dot_str'),
     ("':'.join([f'{i:02x}' for i in %s])", 'join_colon_hex'),
 ]
+# classes whose behaviour is modelled BY HAND in Model/ApiSem.v (builtins version_field, component_property):
+# the translator uses the builtin only while the class source is what was modelled (ast fingerprint)
+HAND_FP = {
+    ('fields.py', ('VersionField',)): '9e6f00531324f629',
+    ('hpm.py', ('ComponentProperty', 'ComponentPropertyGeneral', 'ComponentPropertyCurrentVersion',
+                'ComponentPropertyDescriptionString', 'ComponentPropertyRollbackVersion',
+                'ComponentPropertyDeferredVersion')): '7bdf559fab1cd412',
+}
+
+
+def fingerprint(path, names):
+    import hashlib
+    t = ast.parse(open(path).read())
+    out = []
+    for n in t.body:
+        if isinstance(n, ast.ClassDef) and n.name in names:
+            for x in ast.walk(n):
+                if (isinstance(x, (ast.FunctionDef, ast.ClassDef)) and x.body and isinstance(x.body[0], ast.Expr)
+                        and isinstance(x.body[0].value, ast.Constant) and isinstance(x.body[0].value.value, str)):
+                    x.body = x.body[1:] or [ast.Pass()]
+            out.append(ast.dump(n))
+    return hashlib.sha256('\n'.join(out).encode()).hexdigest()[:16]
+
+
+def hand_ok(pkg, rel):
+    for (r, names), want in HAND_FP.items():
+        if r == rel and fingerprint(os.path.join(pkg, r), set(names)) != want:
+            return False
+    return True
+
+
 GUID_FMT = '%02x%02x%02x%02x-%02x%02x-%02x%02x-%02x%02x-%02x%02x%02x%02x%02x%02x'
 MAX_INLINE = 6
 
@@ -429,6 +460,8 @@ class Translator:
                     return '(ECall "split_dot_int" [%s])' % self.expr(inner, c, pre)
                 return '(ECall "bytebuffer" [%s])' % self.expr(a, c, pre)
             if name == 'VersionField' and len(e.args) == 1 and isinstance(e.args[0], ast.Tuple) and len(e.args[0].elts) == 2:
+                if not hand_ok(self.pkg, 'fields.py'):
+                    raise Unsupp('fields.VersionField differs from the hand-modelled source')
                 return '(ECall "version_field" [%s; %s])' % tuple(self.expr(x, c, pre) for x in e.args[0].elts)
             if name in ('hasattr', 'getattr') and len(e.args) in (2, 3):
                 key = self.const_name(e.args[1], c)
@@ -464,6 +497,12 @@ class Translator:
                     clsname, fn, modname, _ = self.R.methods[f.attr]
                     return self.inline_function(Mod.get(self.pkg, modname + '.py'), fn, e, c, pre, selfkind='ipmi')
                 raise Unsupp('no such attribute %s' % f.attr)
+            # ComponentProperty.from_data(selector, data): hand-modelled (builtin component_property)
+            if (isinstance(f.value, ast.Name) and f.value.id == 'ComponentProperty' and f.attr == 'from_data'
+                    and len(e.args) == 2 and not e.keywords and c.mod.rel == 'hpm.py'):
+                if not (hand_ok(self.pkg, 'hpm.py') and hand_ok(self.pkg, 'fields.py')):
+                    raise Unsupp('hpm.ComponentProperty classes differ from the hand-modelled source')
+                return '(ECall "component_property" [%s; %s])' % (self.expr(e.args[0], c, pre), self.expr(e.args[1], c, pre))
             # table.get(k, d)
             if f.attr == 'get' and isinstance(f.value, ast.Name) and f.value.id in c.mod.tables and len(e.args) == 2:
                 return '(ETable %s %s (Some %s))' % (q(self.table(c.mod, f.value.id)), self.expr(e.args[0], c, pre),
